@@ -5,10 +5,13 @@ import (
 	"testing"
 	"time"
 
+	"github.com/cosmos/cosmos-sdk/crypto/keys/ed25519"
 	sdk "github.com/cosmos/cosmos-sdk/types"
+	stakingtypes "github.com/cosmos/cosmos-sdk/x/staking/types"
 
 	"github.com/osmosis-labs/osmosis/osmomath"
 	pmtypes "github.com/osmosis-labs/osmosis/v31/x/poolmanager/types"
+	valsettypes "github.com/osmosis-labs/osmosis/v31/x/valset-pref/types"
 )
 
 // TestRegress_C19_import_with_lock: a state that holds period locks must be importable with default options
@@ -93,5 +96,79 @@ func TestRegress_C19_protorev_snapshot(t *testing.T) {
 	}
 	if len(a.CyclicArb) == 0 {
 		t.Fatal("harness: source reports no cyclic-arb revenue")
+	}
+}
+
+// TestRegress_C19_valset_zero_share_delegation: MsgDelegateToValidatorSet of an amount whose share for one validator
+// truncates to zero left a delegation record with zero shares; the staking invariant asserted by InitChain then rejected
+// every export of that state (fixed in x/valset-pref DelegateToValidatorSet: such a validator is skipped).
+func TestRegress_C19_valset_zero_share_delegation(t *testing.T) {
+	n := NewNode(Bootstrap(defaultCfg()))
+	defer n.Close()
+	pk := ed25519.GenPrivKeyFromSecret([]byte("c19-val-regress")).PubKey()
+	cv, err := stakingtypes.NewMsgCreateValidator(sdk.ValAddress(Actor(0)).String(), pk, coin(Bond, 5_000_000),
+		stakingtypes.NewDescription("v", "", "", "", ""), stakingtypes.NewCommissionRates(osmomath.NewDecWithPrec(5, 2), osmomath.NewDecWithPrec(20, 2), osmomath.NewDecWithPrec(1, 2)), osmomath.OneInt())
+	if err != nil {
+		t.Fatal(err)
+	}
+	mustTx(t, n, 5*time.Second, 0, cv)
+	vals := n.view().vals
+	if len(vals) < 2 {
+		t.Fatalf("harness: %d validators", len(vals))
+	}
+	mustTx(t, n, 5*time.Second, 1, valsettypes.NewMsgSetValidatorSetPreference(Actor(1), []valsettypes.ValidatorPreference{{ValOperAddress: vals[0], Weight: osmomath.NewDecWithPrec(5, 1)}, {ValOperAddress: vals[1], Weight: osmomath.NewDecWithPrec(5, 1)}}))
+	mustTx(t, n, 5*time.Second, 1, valsettypes.NewMsgDelegateToValidatorSet(Actor(1), coin(Bond, 1)))
+	dels, _ := n.App.StakingKeeper.GetAllDelegations(n.ReadCtx())
+	for _, d := range dels {
+		if !d.Shares.IsPositive() {
+			t.Fatalf("delegation with non-positive shares after MsgDelegateToValidatorSet(1): %v", d)
+		}
+	}
+	var imp *Node
+	func() {
+		defer func() {
+			if r := recover(); r != nil {
+				t.Fatalf("InitChain on the exported state panicked: %v", r)
+			}
+		}()
+		imp = exportImport(t, n)
+	}()
+	imp.Close()
+}
+
+// TestRegress_C19_scenario_gauge_reference_order: a fixed history in which a gauge reference list is reordered by a
+// finishing gauge (three gauges with one start time paying over 1, 3 and 3 epochs) before the export; the node
+// initialised from the export must distribute in the same order in the following epoch (seed c19d).
+func TestRegress_C19_scenario_gauge_reference_order(t *testing.T) {
+	cfg := defaultCfg()
+	cfg.BootGauges = [3]int{1, 3, 3}
+	leader := NewNode(Bootstrap(cfg))
+	defer leader.Close()
+	p := Plan{Cfg: cfg, ExportAt: 1}
+	var want []BlockResult
+	reordered := false
+	for i := 0; i < 3; i++ {
+		blk := Block{Dt: 24*time.Hour + time.Second, Votes: leader.Votes()}
+		br, err := leader.RunBlock(blk.Dt, nil, blk.Votes)
+		if err != nil {
+			t.Fatal(err)
+		}
+		p.Blocks = append(p.Blocks, blk)
+		want = append(want, br)
+		if i == 0 {
+			last := uint64(0)
+			for _, g := range leader.App.IncentivesKeeper.GetActiveGauges(leader.ReadCtx()) {
+				if g.Id < last {
+					reordered = true
+				}
+				last = g.Id
+			}
+		}
+	}
+	if !reordered {
+		t.Fatalf("harness: the scenario no longer reorders the gauge reference list before the export")
+	}
+	if out := replicate(p, want, 2); out.msg != "" {
+		t.Fatalf("%s", out.msg)
 	}
 }
